@@ -211,6 +211,12 @@ protected:
 
 private:
   /**
+   * @brief Adds a class of probability p at the given value, or next to it when the map
+   * already has a key closer than its precision.
+   */
+  void insertClass_(double value, double p);
+
+  /**
    * @brief After a copy: the parameters that were constrained by the domain object of the
    * source distribution become constrained by the domain object of this one.
    */
